@@ -84,6 +84,20 @@ pub fn generate(u: &mut Unit, rng: &mut Rng, n: usize) {
         let managed = alloc.frames();
         let off = region.ptr as usize / Frame::SIZE;
         u.em.qa(&q, &format!("ok {managed}"));
+        // independent of the wrapper's own bookkeeping: managed frames + pages of the lower metadata + header page tile the region
+        u.cov.oracle("C17");
+        let lower_pages = LLFree::metadata_size(&classing, managed).lower.div_ceil(Frame::SIZE);
+        if managed + lower_pages + 1 > z {
+            viol(u, format!("NvmAlloc over a {z}-frame region manages {managed} frames although its lower metadata needs {lower_pages} page(s) and the header one: they overlap"));
+        }
+        // the frames behind the managed ones (metadata pages, header page) can never be obtained
+        for extra in managed..z.min(managed + 4) {
+            let r = guarded(|| alloc.get(Some(FrameId(off + extra)), Request::new(0, Class(0), None)));
+            if let Ok(Ok((f, _))) = &r {
+                viol(u, format!("NvmAlloc handed out frame {} which holds its own metadata/header (region frames {off}..{}, managed {managed})", f.0, off + z));
+                let _ = guarded(|| alloc.put(*f, Request::new(0, Class(0), None)));
+            }
+        }
         u.cov.hit("nvm", "created", &format!("t{}", managed / TREE_FRAMES));
         u.em.qa(&format!("new {managed} free 1 simple {} zone:{off}", cfg0.classes_str()), "ok");
         // a random history through the wrapper
